@@ -452,7 +452,6 @@ def subs(tier: str):
         Sub("element-families", check_family, "exhaustive", cases=_family_cases, exhaustive_flag=True),
         Sub("restricted-enumeration", check_restriction, "hypothesis", strategy=_restriction, examples=10 if q else 400),
         Sub("identity", check_identity, "hypothesis", strategy=_identity, examples=100 if q else 6000),
-        Sub("name-format", _check_full_name_format, "hypothesis", strategy=lambda: st.fixed_dictionaries({"tuple": _tuple()}), examples=20 if q else 200),
         Sub("validity-rule", check_validity_rule, "exhaustive", cases=_validity_cases, exhaustive_flag=True),
         Sub("legacy-map", check_legacy_map, "exhaustive", cases=_legacy_cases, exhaustive_flag=True),
         Sub("legacy-neighbourhood", check_legacy_neighbour, "exhaustive", cases=(lambda sh, n: _legacy_neighbour_cases(sh, n, 2 if q else 3)), exhaustive_flag=True),
